@@ -190,17 +190,18 @@ type Tamper func(msg *ClusterMsg) error
 
 // ClusterMsg describes one DKG message in flight (mutable by a Tamper).
 type ClusterMsg struct {
-	Kind         string // prepare, execute, commit, abort, contribute
-	From, To     uint64
-	Account      string
-	Threshold    uint32
-	Secret       *bls.SecretKey
-	VVec         *[]bls.PublicKey
-	Seq          int
-	Duplicate    bool     // deliver twice
-	Drop         bool     // do not deliver: the sender sees an error
-	ErrorReply   bool     // deliver, but the sender sees an error (the reply is lost)
-	Participants []uint64 // prepare: the participant list, in message order
+	Kind          string // prepare, execute, commit, abort, contribute
+	From, To      uint64
+	Account       string
+	Threshold     uint32
+	Secret        *bls.SecretKey
+	VVec          *[]bls.PublicKey
+	Seq           int
+	Duplicate     bool     // deliver twice
+	Drop          bool     // do not deliver: the sender sees an error
+	ErrorReply    bool     // deliver, but the sender sees an error (the reply is lost)
+	ReplayAltered bool     // contribute: after the genuine delivery, deliver a copy with the share replaced
+	Participants  []uint64 // prepare: the participant list, in message order
 }
 
 type Cluster struct {
@@ -348,6 +349,12 @@ func (s *clusterSender) SendContribution(ctx context.Context, r *core.Endpoint, 
 	res, err := node.Receiver.Contribute(s.peerCtx(ctx), req)
 	if err == nil && m.Duplicate {
 		_, _ = node.Receiver.Contribute(s.peerCtx(ctx), req)
+	}
+	if err == nil && m.ReplayAltered {
+		var junk bls.SecretKey
+		junk.SetByCSPRNG()
+		bad := &pb.ContributeRequest{Account: account, Secret: junk.Serialize(), VerificationVector: req.VerificationVector}
+		_, _ = node.Receiver.Contribute(s.peerCtx(ctx), bad)
 	}
 	if err != nil {
 		return bls.SecretKey{}, nil, err
